@@ -211,7 +211,11 @@ def answerLine (line : String) : String :=
   let req := match req with
     | ["zero", t] => ["from_int", t, "u8", "0"]
     | r => r
-  let verdict := match judge req ans with
+  -- an error text that names a figure beyond 2^28 bytes (a wrapped subtraction, say) is untruthful on its face (C17), and
+  -- the sufficiency test `10^p` for such a width would exhaust the oracle's memory: judged here, not passed on
+  let absurd := ans.any fun t =>
+    t.startsWith "err:" && ((t.splitOn ":").drop 2).any fun f => match f.toNat? with | some n => n > 2 ^ 28 | none => false
+  let verdict := if absurd then "VIOL C17:the_error_names_a_width_beyond_2^28_bytes" else match judge req ans with
     | some cs => showComplaints cs
     | none => "BAD"
   let io : Decstr.Model.Io := ⟨unhex, hex, showPAns, showOAns, showFAns, parseFrags, parseInt, hexNat⟩
